@@ -106,6 +106,7 @@ ITERATIVE = ('krylov', 'krylov+lnbgs', 'lnbgs', 'lnbj')
 def shards(tier, seed):
     n = 16 if tier == 'quick' else 64
     per = 16 if tier == 'quick' else 100
+    per = int(os.environ.get('OMV_C08_PER', per))      # (for trying a tier out with a reduced count)
     return [{'seed': seed * 100000 + i * 1000, 'n': per, 'tier': tier} for i in range(n)]
 
 
@@ -384,16 +385,16 @@ def known_taints(sp, mode):
     root_ln = sp['tree']['ln']['type']
     if mode == 'rev' and dict_direct_in_use(sp):
         # the dictionary-jacobian DirectSolver factorises the forward-scaled matrix and reuses its transpose
-        t.append('directsolver(assemble_jac=False)+rev+scaling')
+        t.append('dict-directsolver+rev+scaling')
     if root_ln == 'direct' and not sp['tree']['ln'].get('assemble_jac') and \
             any(c['kind'] == 'imp' and c.get('matfree') and _comp_flags(c)[0] for c in sp['comps']):
         # _TotalJacInfo linearizes the root linear solver outside the scaled context: a matrix-free implicit
         # component then evaluates its state-dependent apply_linear at doubly-unscaled outputs
-        t.append('root-directsolver(assemble_jac=False)+matrix-free-implicit-comp+output-scaling')
+        t.append('root-dict-directsolver+matfree-implicit-comp+output-scaling')
     if known_matfree_defect_comps(sp):
-        t.append('matrix-free-explicit-comp+output-scaling')
+        t.append('matfree-explicit-comp+output-scaling')
     if known_solve_linear_defect_comps(sp) and root_ln not in ('direct', 'krylov'):
-        t.append('explicit-comp-output-scaling-without-resid-scaling+solve_linear')
+        t.append('explicit-comp-output-scaling-no-resid-scaling+solve_linear')
     return t
 
 
@@ -965,14 +966,14 @@ def _run_cell(G, fm, spec, sspec, feats, scal, unscal, ustar, p, Ju, Jp, cell, c
         a, b = fm.soff[n]
         m = cmp_vals('', us[a:b], ustar[a:b], bs['ebound'][a:b])
         if m:
-            bad.append(('outputs-differ-from-reference', '%s: %s' % (n, m)))
+            bad.append(('outputs-vs-reference', '%s: %s' % (n, m)))
             break
     acc.count('obs:values-compared')
     for n in fm.state_names:
         a, b = fm.soff[n]
         m = cmp_vals('', us[a:b], rp['u'][a:b], bs['ebound'][a:b] + bp['ebound'][a:b])
         if m:
-            bad.append(('outputs-differ-from-plain-twin', '%s: %s' % (n, m)))
+            bad.append(('outputs-vs-plain-twin', '%s: %s' % (n, m)))
             break
     if 'u_after' in rsd and not np.array_equal(rsd['u_after'], us):
         if cmp_vals('', rsd['u_after'], us, 32.0 * EPS * (np.abs(us) + 2.0 * np.abs(scal[0][1])), rel=0.0):
@@ -989,11 +990,11 @@ def _run_cell(G, fm, spec, sspec, feats, scal, unscal, ustar, p, Ju, Jp, cell, c
             tol = tolp = np.zeros(pos.size)
         m = cmp_vals('', rsd['inputs'][cn['tgt']], ref, tol)
         if m:
-            bad.append(('inputs-differ-from-reference', '%s: %s' % (cn['tgt'], m)))
+            bad.append(('inputs-vs-reference', '%s: %s' % (cn['tgt'], m)))
             break
         m = cmp_vals('', rsd['inputs'][cn['tgt']], rp['inputs'][cn['tgt']], tol + tolp)
         if m:
-            bad.append(('inputs-differ-from-plain-twin', '%s: %s' % (cn['tgt'], m)))
+            bad.append(('inputs-vs-plain-twin', '%s: %s' % (cn['tgt'], m)))
             break
     acc.count('obs:inputs-compared')
     # ---- scaled twin: totals (reference evaluated at the twin's own point)
@@ -1011,12 +1012,12 @@ def _run_cell(G, fm, spec, sspec, feats, scal, unscal, ustar, p, Ju, Jp, cell, c
         Jref_s = _ref_totals(fm, of, wrt, us, p)
         m = cmp_vals('', rsd['J'], Jref_s, bs['abs_J'][mode], bs['rel_J'])
         if m:
-            bad.append(('totals-differ-from-reference', m))
+            bad.append(('totals-vs-reference', m))
         drift = float(np.max(np.abs(Jref_s - Jref_p), initial=0.0))
         m = cmp_vals('', rsd['J'], rp['J'], bs['abs_J'][mode] + bp['abs_J'][mode] + drift,
                      bs['rel_J'] + bp['rel_J'])
         if m:
-            bad.append(('totals-differ-from-plain-twin', m))
+            bad.append(('totals-vs-plain-twin', m))
         acc.count('obs:totals-compared')
         totals_judged = True
     acc.count('obs:twin-vs-twin-compared')
